@@ -94,6 +94,9 @@ Engine/Polyglot.vos Engine/Polyglot.vok Engine/Polyglot.required_vos: Engine/Pol
 Engine/PolyglotInst.vo Engine/PolyglotInst.glob Engine/PolyglotInst.v.beautified Engine/PolyglotInst.required_vo: Engine/PolyglotInst.v Engine/Polyglot.vo Engine/Book.vo Golden/Random64.vo Gen/PolyglotData.vo
 Engine/PolyglotInst.vio: Engine/PolyglotInst.v Engine/Polyglot.vio Engine/Book.vio Golden/Random64.vio Gen/PolyglotData.vio
 Engine/PolyglotInst.vos Engine/PolyglotInst.vok Engine/PolyglotInst.required_vos: Engine/PolyglotInst.v Engine/Polyglot.vos Engine/Book.vos Golden/Random64.vos Gen/PolyglotData.vos
+Engine/PolyglotProofs.vo Engine/PolyglotProofs.glob Engine/PolyglotProofs.v.beautified Engine/PolyglotProofs.required_vo: Engine/PolyglotProofs.v Engine/PositionRep.vo Engine/RepProofs.vo Engine/RepRoundTrip.vo Engine/RepAbs.vo Engine/RepRefine.vo Engine/RepRefineLegal.vo Engine/KeyScratch.vo Engine/KeyScratchMove.vo Engine/KeyScratchInit.vo Engine/Polyglot.vo Engine/Magic.vo Engine/MagicProofs.vo Base/NIter.vo Base/Bits.vo Base/Geom.vo Base/FileRank.vo Chess/RulesFacts.vo
+Engine/PolyglotProofs.vio: Engine/PolyglotProofs.v Engine/PositionRep.vio Engine/RepProofs.vio Engine/RepRoundTrip.vio Engine/RepAbs.vio Engine/RepRefine.vio Engine/RepRefineLegal.vio Engine/KeyScratch.vio Engine/KeyScratchMove.vio Engine/KeyScratchInit.vio Engine/Polyglot.vio Engine/Magic.vio Engine/MagicProofs.vio Base/NIter.vio Base/Bits.vio Base/Geom.vio Base/FileRank.vio Chess/RulesFacts.vio
+Engine/PolyglotProofs.vos Engine/PolyglotProofs.vok Engine/PolyglotProofs.required_vos: Engine/PolyglotProofs.v Engine/PositionRep.vos Engine/RepProofs.vos Engine/RepRoundTrip.vos Engine/RepAbs.vos Engine/RepRefine.vos Engine/RepRefineLegal.vos Engine/KeyScratch.vos Engine/KeyScratchMove.vos Engine/KeyScratchInit.vos Engine/Polyglot.vos Engine/Magic.vos Engine/MagicProofs.vos Base/NIter.vos Base/Bits.vos Base/Geom.vos Base/FileRank.vos Chess/RulesFacts.vos
 Engine/PositionRep.vo Engine/PositionRep.glob Engine/PositionRep.v.beautified Engine/PositionRep.required_vo: Engine/PositionRep.v Engine/Encoding.vo
 Engine/PositionRep.vio: Engine/PositionRep.v Engine/Encoding.vio
 Engine/PositionRep.vos Engine/PositionRep.vok Engine/PositionRep.required_vos: Engine/PositionRep.v Engine/Encoding.vos
@@ -280,9 +283,9 @@ Props/Properties_C16.vos Props/Properties_C16.vok Props/Properties_C16.required_
 Props/Properties_C17.vo Props/Properties_C17.glob Props/Properties_C17.v.beautified Props/Properties_C17.required_vo: Props/Properties_C17.v Chess/Rules.vo Chess/San.vo
 Props/Properties_C17.vio: Props/Properties_C17.v Chess/Rules.vio Chess/San.vio
 Props/Properties_C17.vos Props/Properties_C17.vok Props/Properties_C17.required_vos: Props/Properties_C17.v Chess/Rules.vos Chess/San.vos
-Props/Properties_C18.vo Props/Properties_C18.glob Props/Properties_C18.v.beautified Props/Properties_C18.required_vo: Props/Properties_C18.v Engine/Polyglot.vo Engine/PolyglotInst.vo Chess/Fen.vo Golden/Random64.vo Gen/PolyglotData.vo Engine/Magic.vo
-Props/Properties_C18.vio: Props/Properties_C18.v Engine/Polyglot.vio Engine/PolyglotInst.vio Chess/Fen.vio Golden/Random64.vio Gen/PolyglotData.vio Engine/Magic.vio
-Props/Properties_C18.vos Props/Properties_C18.vok Props/Properties_C18.required_vos: Props/Properties_C18.v Engine/Polyglot.vos Engine/PolyglotInst.vos Chess/Fen.vos Golden/Random64.vos Gen/PolyglotData.vos Engine/Magic.vos
+Props/Properties_C18.vo Props/Properties_C18.glob Props/Properties_C18.v.beautified Props/Properties_C18.required_vo: Props/Properties_C18.v Engine/Polyglot.vo Engine/PolyglotInst.vo Chess/Fen.vo Golden/Random64.vo Gen/PolyglotData.vo Engine/Magic.vo Engine/PolyglotProofs.vo Engine/RepAbs.vo Chess/Rules.vo Base/NIter.vo
+Props/Properties_C18.vio: Props/Properties_C18.v Engine/Polyglot.vio Engine/PolyglotInst.vio Chess/Fen.vio Golden/Random64.vio Gen/PolyglotData.vio Engine/Magic.vio Engine/PolyglotProofs.vio Engine/RepAbs.vio Chess/Rules.vio Base/NIter.vio
+Props/Properties_C18.vos Props/Properties_C18.vok Props/Properties_C18.required_vos: Props/Properties_C18.v Engine/Polyglot.vos Engine/PolyglotInst.vos Chess/Fen.vos Golden/Random64.vos Gen/PolyglotData.vos Engine/Magic.vos Engine/PolyglotProofs.vos Engine/RepAbs.vos Chess/Rules.vos Base/NIter.vos
 Props/Properties_C19.vo Props/Properties_C19.glob Props/Properties_C19.v.beautified Props/Properties_C19.required_vo: Props/Properties_C19.v Engine/Book.vo Engine/BookProofs.vo
 Props/Properties_C19.vio: Props/Properties_C19.v Engine/Book.vio Engine/BookProofs.vio
 Props/Properties_C19.vos Props/Properties_C19.vok Props/Properties_C19.required_vos: Props/Properties_C19.v Engine/Book.vos Engine/BookProofs.vos
